@@ -64,6 +64,24 @@ CHECKS.update({
             "Trusts RefChain and the generator's script labels; one node, cooperative schedule.",
             "deterministic simulation: real node + mempool driven by seeded submission/block/reorg/clock histories; oracle = naive recomputation from public mempool contents + reference chain model + the node's own TestBlockValidity",
             "DESIGN.md §5 C22"),
+    "C14": ("threadsim/parallel-validation", "exploration",
+            "The subject node's real script-check workers (CCheckQueue) and prevout-fetch workers (ThreadPool + CoinsViewOverlay) run as real threads of which exactly one runs at a time; the seed decides every switch (uniform preemption or PCT priorities, or cooperative) at every intercepted pthread/futex call and at the guarded VERIF_YIELD points inside the lock-free claim/ready protocol. A serial twin (0/0 workers) receives the same deliveries: verdict, reject result and tip must agree for every schedule and worker count, UTXO hashes must agree, the reference chain model checks the final UTXO set, the simulator reports deadlocks, and a vector-clock happens-before checker fed by the guarded VERIF_ACCESS/VERIF_SYNC annotations reports unordered accesses to InputToFetch::coin and m_inputs.",
+            "Threads are serialised: weak-memory effects and torn plain accesses are invisible (a release->relaxed weakening would need the TSan stress mode, which is not built); races are decided only for the annotated fields. Needs the three guarded hook commits in /repo (BITCOIN_VERIF).",
+            "deterministic simulation: real threads under a token-passing scheduler (link-time interposition of pthread/futex/sem/sleep/clock), seeded schedules, serial twin node as oracle + happens-before race check",
+            "DESIGN.md §4.5, §5 C14"),
+    "C36": ("peersim/punishment", "exploration",
+            "One real node (validation + mempool + PeerManager + CConnman bookkeeping) with 2-8 scripted peers over connection types x permissions x local/routable addresses x blocks-only mode; seeded events: tx messages of 11 kinds, full blocks with one consensus defect built on the tip, valid blocks, headers with invalid PoW / broken continuity, noise, msghand ticks and clock steps. After every event fDisconnect and the discouragement filter of every peer are compared with the statement: a tx-allowed peer whose only input was tx messages and whose msghand ticks saw no clock advance is never disconnected or discouraged; noban/manual peers that sent an invalid block or invalid-PoW headers are not punished; any other such peer is disconnected after the next SendMessages and discouraged iff its address is not local.",
+            "Outgoing messages are observed through the CaptureMessage test seam, incoming ones are framed by the node-side V1 transport; sockets and the net/msghand threads are replaced by simulator events. Attribution of a flag change uses the mock clock: timeouts need the clock to move, punishments happen in the tick after the offending message.",
+            "deterministic simulation: real P2P message layer of one node with scripted peers, seeded message/tick/clock schedule; oracle = the statement's punishment rules evaluated after every event",
+            "DESIGN.md §4.4, §5 C36"),
+    "C58": ("nodesim/unrequested-blocks", "exploration",
+            "Seeded histories of header announcements and ProcessNewBlock(force_processing=false) deliveries of blocks below/equal/above the tip's work, at heights tip+287/288/289, with minimum-chain-work knobs around the boundary, followed by requested deliveries; storage is observed through the block index flags and through the engine's own parser of the XOR-obfuscated blk files. stored => (work >= tip, height <= tip+288, chain work >= minimum); dropped => no failure flag, no invalid verdict, and the later requested delivery is accepted; plus (knob exact=1) eligible => stored.",
+            "All regtest blocks have equal work, so work comparisons coincide with height comparisons; 'requested' is the force_processing argument (net_processing's in-flight tracking is not in the loop).",
+            CHAIN_TECH, "DESIGN.md §5 C58"),
+    "C13": ("nodesim/twin-caches", "exploration",
+            "Twin run: node A with 2 KiB..1 MiB signature/script-execution caches, node B with minimum tables that are additionally flooded with junk before every call, same seeded operation sequence (new/variant/replayed-signature transactions of ten script kinds incl. policy-only-invalid ones, test-accept, submit, blocks built from the mempool with TestBlockValidity 0-2 times before delivery, reorgs, invalidate/reconsider, CSV activating mid-history so the consensus flag set changes while results are cached): every verdict and reject reason of A equals B's and the model's, mempools and tips equal, no script-invalid transaction or block is ever accepted.",
+            "Different spent outputs for one wtxid (needs BIP30 duplicates) is not generated; parallel script checking is C14's business.",
+            CHAIN_TECH + "; twin node without effective caches as oracle", "DESIGN.md §5 C13"),
     "C38": ("compsim/cmpctblock", "exploration",
             "Real PartiallyDownloadedBlock/CBlockHeaderAndShortTxIDs/BlockTransactionsRequest (every message round-tripped through its wire codec) against a standalone mempool and extra-transaction ring churned by seeded ops, an adversarial announcer (prefilled-index games, tx-list lies incl. CVE-2012-2459 tail duplication, duplicate/decoy/random short ids) and an adversarial responder (wrong/reordered/short/long blocktxn); FillBlock == OK implies exactly the announced header and transaction list, merkle-unmutated, witness commitment intact; an honest announcement + honest response of a well-formed block must reconstruct.",
             "Component level only: the in-situ clause (block stored under hash H at a real node) is not decided here. Real 48-bit short-id collisions are reached through one offline-searched fixture (two pool transactions colliding under a fixed block key); collisions involving a block transaction are out of reach.",
